@@ -451,3 +451,9 @@ package stdlib
 // (The Impl callback is not under contract: its WithMarks calls need a bound on the number of mark sets that
 // flattener's result does not have; its call of flattener is covered by the same argument as the Type
 // callback's: the argument is known, non-null and iterable.)
+//
+// The strict RFC 3339 parser behind formatdate and timeadd (C11/C14): no input string makes it panic
+// (every index and slice expression is guarded by the length tests before it).
+//@ func stdlib.parseRFC3339
+//@   tags C11 C14
+//@   loop 1 invariant (and (<= 2 n) (<= n (str.len $now.s)))
